@@ -586,6 +586,10 @@ class Scene(Geometry3D):
             )
             # save the node names for each triangle
             triangles_node.append(np.tile(node_name, len(geometry.triangles)))
+        if len(triangles) == 0:
+            # no geometry in the scene has triangles
+            self._cache["triangles_node"] = np.array([], dtype=object)
+            return np.zeros((0, 3, 3), dtype=np.float64)
         # save the resulting nodes to the cache
         self._cache["triangles_node"] = np.hstack(triangles_node)
         return np.vstack(triangles).reshape((-1, 3, 3))
